@@ -8,6 +8,9 @@
 
 #define MAX_PARSER_ERRORS 20
 
+/* Longest chain of postfix/infix operators in one expression (the AST is as deep as the chain is long) */
+#define MAX_EXPRESSION_CHAIN 2000
+
 /* Forward declarations */
 static Type parse_type_with_element(Stage1Parser *p, Type *element_type_out, char **type_param_name_out, FunctionSignature **fn_sig_out, TypeInfo **type_info_out);
 
@@ -2268,7 +2271,7 @@ static ASTNode *parse_if_expression(Stage1Parser *p) {
         /* Check for 'else if' - parse as nested if expression */
         Token *next = current_token(p);
         if (next && next->token_type == TOKEN_IF) {
-            else_branch = parse_if_expression(p);
+            else_branch = parse_expression(p);  /* dispatches to parse_if_expression under the depth guard */
         } else {
             else_branch = parse_block(p);
         }
@@ -2339,7 +2342,16 @@ static ASTNode *parse_expression_ex(Stage1Parser *p, bool operand_only) {
      * For each iteration: first consume all dot-access on expr, then check
      * for infix binary operator. If found, parse right operand and loop again.
      */
+    int chain_length = 0;
     for (;;) {
+        if (++chain_length > MAX_EXPRESSION_CHAIN) {
+            Token *long_tok = current_token(p);
+            parser_error(p, long_tok ? long_tok->line : 0, long_tok ? long_tok->column : 0,
+                    "Error at line %d, column %d: Expression has more than %d chained operators; use parentheses or split it\n",
+                    long_tok ? long_tok->line : 0, long_tok ? long_tok->column : 0, MAX_EXPRESSION_CHAIN);
+            p->recursion_depth--;
+            return expr;
+        }
         /* Handle field access or union construction:
          * - obj.field -> field access
          * - UnionName.Variant { ... } -> union construction
@@ -2347,6 +2359,9 @@ static ASTNode *parse_expression_ex(Stage1Parser *p, bool operand_only) {
          */
         while (match(p, TOKEN_DOT)) {
             Token *dot_tok = current_token(p);
+            if (++chain_length > MAX_EXPRESSION_CHAIN) {
+                break;  /* reported at the top of the outer loop */
+            }
             if (!dot_tok) {
                 parser_error(p, 0, 0, "Error: Stage1Parser reached invalid state (NULL token) in field access\n");
                 p->recursion_depth--;
@@ -2480,6 +2495,10 @@ static ASTNode *parse_expression_ex(Stage1Parser *p, bool operand_only) {
                 field_access->as.field_access.field_name = field_or_variant;
                 expr = field_access;
             }
+        }
+
+        if (chain_length > MAX_EXPRESSION_CHAIN) {
+            continue;  /* reported at the top of the loop */
         }
 
         /* Check for infix binary operator: expr op primary */
